@@ -670,6 +670,12 @@ func c12Catalogue() []c12Case {
 		{"lend.RepayWithdraw", "A", true, false, "lend", "", func(w *c12World, s sdk.AccAddress) sdk.Msg {
 			return &lendtypes.MsgRepayWithdraw{Borrower: s.String(), BorrowId: w.borrowA}
 		}},
+		{"lend.FundModuleAccounts", "B", false, false, "lend", "", func(w *c12World, s sdk.AccAddress) sdk.Msg {
+			return &lendtypes.MsgFundModuleAccounts{PoolId: w.lendPool, AssetId: w.a1, Lender: s.String(), Amount: coin("uasset1", 1000000)}
+		}},
+		{"lend.FundReserveAccounts", "B", false, false, "lend", "", func(w *c12World, s sdk.AccAddress) sdk.Msg {
+			return &lendtypes.MsgFundReserveAccounts{AssetId: w.a1, Lender: s.String(), Amount: coin("uasset1", 1000000)}
+		}},
 		{"lend.CalculateInterestAndRewards", "A", false, true, "lend", "", func(w *c12World, s sdk.AccAddress) sdk.Msg {
 			return &lendtypes.MsgCalculateInterestAndRewards{Borrower: s.String()}
 		}},
@@ -779,6 +785,7 @@ func (w *c12World) emit(tr *Trace, c c12Case, scnName string, signer string, adm
 	} else if scn.price != "all" && scn.price != "none" && strings.Contains(c.needs, scn.price) {
 		priceOK = false
 	}
+	tr.Line("grd.begin", c.handler, scnName)
 	tr.Line("grd.msg", c.handler, scnName, b01(owner), b01(c.names), b01(admin), b01(scn.brk), scn.esm, b01(priceOK), b01(base),
 		r.outcome, b01(r.parentEmpty), b01(r.branchClean), b01(r.victimSame))
 	tr.Count("msg:" + c.handler + ":" + r.outcome)
@@ -833,6 +840,7 @@ func c12KillSwitch(t *testing.T, tr *Trace, w *c12World) {
 			ctx := w.stage(c12Scn{esm: "none", price: "all", brk: !on}, w.appVault)
 			before := w.dump(ctx)
 			r := w.deliver(ctx, before, w.victimProj(ctx), msg)
+			tr.Line("grd.begin", c.handler, "kill/"+signer+"/"+b01(on))
 			tr.Line("grd.msg", c.handler, "kill/"+signer+"/"+b01(on), "1", "0", b01(signer == "admin"), b01(!on), "none", "1", b01(signer == "admin"),
 				r.outcome, b01(r.parentEmpty), b01(r.branchClean), b01(r.victimSame))
 			tr.Count("kill:" + signer + ":" + r.outcome)
@@ -1006,6 +1014,7 @@ func c12Wasm(t *testing.T, tr *Trace, w *c12World) {
 					write()
 				}
 				empty := len(diffStores(before, w.dump(tx))) == 0
+				tr.Line("grd.begin", c.variant, chainID+"/"+s.kind)
 				tr.Line("grd.wasm", c.variant, chainID, s.kind, s.addr.String(), b01(s.kind == "designated"), outcome, b01(empty))
 				tr.Count("wasm:" + s.kind + ":" + outcome)
 				if s.kind == "designated" && outcome != "ok" {
@@ -1210,6 +1219,7 @@ func c14Sweeps(t *testing.T, tr *Trace, w *c12World) {
 						if !brk {
 							appSame = true
 						}
+						tr.Line("grd.begin", l.name, fmt.Sprintf("%s/brk%s/esm-%s", l.app, b01(brk), esmL))
 						tr.Line("grd.sweep", l.name, l.app, b01(brk), esmL, b01(base), fmt.Sprint(started), b01(appSame))
 						tr.Count(fmt.Sprintf("sweep:%s:brk%s:esm-%s:started%d", l.name, b01(brk), esmL, started))
 						if base && started == 0 {
